@@ -91,6 +91,7 @@ var gens = []generator{
 	{file: "GbSlice.lean", src: "seqio/genbank.go (GenBankFields.Slice)", run: genGbSlice},
 	{file: "IoDelegateFacts.lean", src: "cmd/gts/io.go (the cache protocol: newIODelegate, TryCache, Write, Commit, Close as facts)", run: genIoDelegateFacts},
 	{file: "IoDelegate.lean", src: "cmd/gts/io.go (gtsCacheDir, newIODelegate, Commit, Write, Close, TryCache as functions over I/O primitives)", run: genIoDelegateFn},
+	{file: "CmdFacts.lean", src: "cmd/gts/*.go (the command functions without a regenerated tie of their own, as facts; the inventory of cmd/gts)", run: genCmdFacts},
 }
 
 func writeIfChanged(path string, content []byte) (bool, error) {
